@@ -8,8 +8,8 @@
 From Coq Require Import List ZArith Bool Arith.
 Import ListNotations.
 From SV Require Import C01.SatSpec C01.Machine C01.DeepCdcl.
-From SV Require C01.DeepBase C01.DeepTrail C01.DeepTrailProp C01.DeepAnalyze.
-Import DeepTrail DeepTrailProp DeepAnalyze.
+From SV Require C01.DeepBase C01.DeepTrail C01.DeepTrailProp C01.DeepAnalyze C01.DeepWatch C01.DeepReason C01.DeepReasonProp.
+Import DeepTrail DeepTrailProp DeepAnalyze DeepWatch DeepReason DeepReasonProp.
 
 (* ---- (a) deep_trail_inv (T): vals / trail / trail_lim / levels / prop_head are consistent:
    no variable twice on the trail, a variable is assigned iff it is on the trail, prop_head <= len(trail), trail_lim is
@@ -46,6 +46,37 @@ Theorem deep_learned_entailed : forall s ci lc bt lbd,
   analyze s ci = Some (lc, bt, lbd) -> entails (db s) lc.
 Proof. exact DeepAnalyze.analyze_entailed. Qed.
 Print Assumptions deep_learned_entailed.
+
+(* ---- (b) deep_reason_inv: the reason clause of every implied variable (level >= 1) is a clause of the database whose other
+   literals are false and were assigned earlier (reason_inv); a reasonless variable of level >= 1 is the first of its level
+   (decision_first).  Both live in the bundle BI together with (T), the "at most" half of (W) (watch_le: a clause sits in the
+   watch list of l at most as often as l stands on its positions 0/1; big_ok: an implication entry is a binary clause of the
+   database) and head_inv (decision marks <= prop_head, unprocessed trail entries lie on the current level). ---- *)
+Theorem deep_reason_inv_assign : forall s v b r0,
+  trail_inv s -> reason_inv s -> val_of s v = None -> (v < length (s_vals s))%nat ->
+  (forall r, r0 = Some r -> (1 <= cur_level s)%nat -> (r < n_clauses s)%nat
+     /\ forall l, In l (get_clause s r) -> (lvar l = v /\ lpos l = b) \/ lit_value s l = Some false) ->
+  reason_inv (assign v b r0 s).
+Proof. exact DeepReason.reason_inv_assign. Qed.
+Print Assumptions deep_reason_inv_assign.
+
+Theorem deep_reason_inv_unassign_to : forall s level, trail_inv s -> reason_inv s -> reason_inv (unassign_to level s).
+Proof. exact DeepReason.reason_inv_unassign_to. Qed.
+Print Assumptions deep_reason_inv_unassign_to.
+
+(* propagate() keeps the whole bundle; a conflict it reports is a falsified clause of the database with a literal of the
+   current level; without conflict everything on the trail is processed *)
+Theorem deep_reason_inv_propagate : forall fuel A s s' c,
+  assum_ok (nv s) A -> BI s -> propagate fuel A s = Some (s', c) ->
+  BI s' /\ (forall ci, c = CAt ci -> conflict_ok s' ci) /\ (c = CNone -> s_head s' = length (s_trail s'))
+  /\ (c = CAssum -> cur_level s' = 0%nat).
+Proof. exact DeepReasonProp.propagate_BI. Qed.
+Print Assumptions deep_reason_inv_propagate.
+
+(* the bundle gives `analyze` its hypotheses *)
+Theorem deep_reason_inv_discharges : forall s, BI s -> trail_inv s /\ db_nonzero s /\ reason_ok s /\ decision_first s.
+Proof. exact DeepReasonProp.BI_analyze_hyps. Qed.
+Print Assumptions deep_reason_inv_discharges.
 
 (* ---- non-vacuity: the model reproduces real runs of /repo (solve_sat under both hooks) ---- *)
 Definition dx_N : cnf := [[1; 2; 3]; [-1; -2]; [-2; -3]; [1; -3; 4]; [-4; 2; 1]; [-1; -4]]%Z.
